@@ -9,7 +9,7 @@ use ddosim::agg::{Agg, ViolationRecord};
 use ddosim::rng::mix;
 use ddosim::{arms, history, solve};
 
-struct Shared { agg: Agg, next: u64, arm: String, base: u64, out_prefix: String, cur_replay: serde_json::Value, cur_seed: u64 }
+struct Shared { agg: Agg, next: u64, arm: String, base: u64, out_prefix: String, cur_replay: serde_json::Value, cur_seed: u64, run_started: Option<std::time::Instant> }
 
 fn write_sets(sh: &Shared) -> (String, String) {
     let df = format!("{}.distinct", sh.out_prefix);
@@ -40,7 +40,7 @@ fn main() {
             let out_prefix = get("--out").unwrap_or_else(|| format!("/tmp/ddosim_{}", std::process::id()));
             let time_limit: f64 = get("--time").and_then(|s| s.parse().ok()).unwrap_or(1e9);
             let max_viol: usize = get("--max-violations").and_then(|s| s.parse().ok()).unwrap_or(5);
-            let sh = Arc::new(Mutex::new(Shared { agg: Agg::new(samples), next: from, arm: arm.clone(), base, out_prefix, cur_replay: serde_json::Value::Null, cur_seed: 0 }));
+            let sh = Arc::new(Mutex::new(Shared { agg: Agg::new(samples), next: from, arm: arm.clone(), base, out_prefix, cur_replay: serde_json::Value::Null, cur_seed: 0, run_started: None }));
             {
                 let sh2 = sh.clone();
                 solve::set_fatal_hook(Some(Box::new(move |viol, rep| {
@@ -65,16 +65,44 @@ fn main() {
                     print_summary(&g);
                 })));
             }
+            // per-run wall-clock watchdog: a run that does not come back (a hang between two scheduling points, e.g. a wake-up
+            // that is never delivered although the hook said so, or an endless loop inside a compilation) cannot satisfy any
+            // property of the form "maximize() / compile() returns ...": it is reported as a violation (class no-return)
+            {
+                let shw = sh.clone();
+                let limit: f64 = if arm.starts_with("ex-") { 1e9 } else { get("--watchdog").and_then(|s| s.parse().ok()).unwrap_or(30.0) };
+                std::thread::spawn(move || loop {
+                    std::thread::sleep(std::time::Duration::from_millis(250));
+                    let mut g = shw.lock().unwrap();
+                    if let Some(t) = g.run_started { if t.elapsed().as_secs_f64() > limit {
+                        let run = g.next;
+                        let arm = g.arm.clone();
+                        let mut props: Vec<String> = if arm.starts_with("par-") { vec!["C04".into()] } else if arm.starts_with("seq-") { vec!["C01".into()] }
+                            else if arm.starts_with("dd-history") { vec!["C06".into(), "C07".into(), "C08".into()] } else if arm == "fringe-history" { vec!["C11".into()] }
+                            else if arm == "store-history" { vec!["C18".into()] } else if arm == "dom-history" { vec!["C10".into(), "C18".into()] } else { vec![] };
+                        if let Some(sc) = g.cur_replay.get("scenario") { if let Ok(s) = serde_json::from_value::<solve::Scenario>(sc.clone()) { if arms::is_pooled_longarc(&s) { props.push("C15".into()); } } }
+                        let viol = solve::Violation { props, class: "no-return".into(), msg: format!("the run did not come back within {limit} s of wall-clock time (a terminating run takes milliseconds): hang between two scheduling points") };
+                        g.agg.runs += 1; g.agg.add("fatal_runs", 1); g.agg.add("watchdog_no_return", 1);
+                        let rec = ViolationRecord { arm, seed: g.cur_seed, run, violations: vec![viol], replay: g.cur_replay.clone() };
+                        println!("{}", serde_json::json!({"violation": rec, "harness_error": false}));
+                        g.next = run + 1;
+                        print_summary(&g);
+                        std::process::exit(3);
+                    } }
+                });
+            }
             let t0 = std::time::Instant::now();
             let mut nviol = 0;
+            let mut nother = 0;
+            let count_prop = get("--count-prop");
             let mut i = from;
             while i < to {
                 if t0.elapsed().as_secs_f64() > time_limit { break; }
                 let seed = mix(base, i);
                 let rec = {
                     let shc = sh.clone();
-                    let pre = move |sc: &solve::Scenario| { let mut g = shc.lock().unwrap(); g.cur_seed = sc.seed; g.cur_replay = serde_json::json!({"kind": "solver", "scenario": sc}); };
-                    { let mut g = sh.lock().unwrap(); g.next = i; g.cur_seed = seed; g.cur_replay = serde_json::json!({"kind": "seed", "arm": arm, "seed": seed}); }
+                    let pre = move |sc: &solve::Scenario| { let mut g = shc.lock().unwrap(); g.cur_seed = sc.seed; g.cur_replay = serde_json::json!({"kind": "solver", "scenario": sc}); g.run_started = Some(std::time::Instant::now()); };
+                    { let mut g = sh.lock().unwrap(); g.next = i; g.cur_seed = seed; g.cur_replay = serde_json::json!({"kind": "seed", "arm": arm, "seed": seed}); g.run_started = Some(std::time::Instant::now()); }
                     // every run has its own small aggregator, merged afterwards (the fatal hook needs the shared one)
                     let mut agg = { let g = sh.lock().unwrap(); Agg::new(g.agg.max_samples - g.agg.samples.len().min(g.agg.max_samples)) };
                     let r = if arms::solver_arm_opts(&arm).is_some() { arms::run_solver_arm(&arm, seed, i, &mut agg, &pre) }
@@ -82,16 +110,17 @@ fn main() {
                         else if arm.starts_with("seq-sweep") { arms::run_seq_sweep(&arm, seed, i, &mut agg, None) }
                         else if arm.starts_with("ex-") { ddosim::exgen::run_example_arm(&arm, seed, i, &mut agg, None).unwrap_or_else(|| { eprintln!("unknown example arm {arm}"); std::process::exit(2) }) }
                         else { history::run_history_arm(&arm, seed, i, &mut agg).unwrap_or_else(|| { eprintln!("unknown arm {arm}"); std::process::exit(2) }) };
-                    sh.lock().unwrap().agg.merge(agg);
+                    { let mut g = sh.lock().unwrap(); g.agg.merge(agg); g.run_started = None; }
                     r
                 };
                 i += 1;
                 sh.lock().unwrap().next = i;
                 if let Some(rec) = rec {
                     let harness = rec.violations.iter().any(|v| v.props.is_empty());
-                    println!("{}", serde_json::json!({"violation": rec, "harness_error": harness}));
-                    nviol += 1;
-                    if nviol >= max_viol { break; }
+                    // only violations of the property being checked count towards the early stop; others are reported (a few) and the run goes on
+                    let mine = count_prop.as_ref().map_or(true, |p| harness || rec.violations.iter().any(|v| v.props.iter().any(|q| q == p)));
+                    if mine { println!("{}", serde_json::json!({"violation": rec, "harness_error": harness})); nviol += 1; if nviol >= max_viol { break; } }
+                    else if nother < 10 { nother += 1; println!("{}", serde_json::json!({"violation": rec, "harness_error": harness})); }
                 }
             }
             print_summary(&sh.lock().unwrap());
